@@ -25,14 +25,33 @@ def r1_table_agreement(run):
     run.floor("R1", "samlp STATUS_ constants", len(consts), 22)
     top = {"STATUS_SUCCESS", "STATUS_REQUESTER"}
     tab = rm.assigns.get("STATUSCODE2EXCEPTION")
-    run.require(tab and isinstance(tab[-1], ast.Dict),
-                "response.STATUSCODE2EXCEPTION vanished")
-    d = tab[-1]
+    run.require(tab, "response.STATUSCODE2EXCEPTION vanished")
     keys = {}
-    for k, v in zip(d.keys, d.values):
-        kn = attr_chain(k)
-        kn = kn.split(".")[-1] if kn else unparse(k)
-        keys[kn] = unparse(v)
+    if isinstance(tab[-1], ast.Dict):
+        d = tab[-1]
+        for k, v in zip(d.keys, d.values):
+            kn = attr_chain(k)
+            kn = kn.split(".")[-1] if kn else unparse(k)
+            keys[kn] = unparse(v)
+    else:
+        # no longer a literal: take the table as built at import time (module
+        # top level only, as for the schema tables) and name its keys by the
+        # samlp constants holding those URNs
+        from ..tables import reflect_value
+        val = reflect_value(m, "saml2_tophat.response", "STATUSCODE2EXCEPTION")
+        run.require(val.get("kind") == "dict", "STATUSCODE2EXCEPTION is not a "
+                    "dictionary")
+        by_urn = {}
+        for cname, vals in consts.items():
+            v = vals[-1]
+            if isinstance(v, ast.Constant) and isinstance(v.value, str):
+                by_urn[v.value] = cname
+        for k, v in val["items"]:
+            kn = by_urn.get(k, repr(k))
+            keys[kn] = v["class"].rsplit(".", 1)[-1] if isinstance(v, dict) \
+                and "class" in v else repr(v)
+        run.note("STATUSCODE2EXCEPTION is computed, not a literal: its %d "
+                 "entries were taken from the imported module" % len(keys))
     seen_classes = {}
     for cname in sorted(consts):
         if cname in top:
@@ -84,11 +103,18 @@ def r2_non_success_raises(run):
     m = run.model
     fi = m.func(SR + "status_ok")
     cfg = cfg_of(fi, m)
-    tests = {unparse(t.ast): t for t in cfg.by_kind("test")}
+    from .. import canon
     neq = "status.status_code.value != samlp.STATUS_SUCCESS"
     eq = "status.status_code.value == samlp.STATUS_SUCCESS"
+    want = ast.parse(eq, mode="eval").body
+    # the comparison in any spelling (==/!=, either operand order, with or
+    # without the `status` temporary)
+    compared = any(
+        canon.ctext(a) == cfg.itext(want, t.id)
+        for t in cfg.by_kind("test")
+        for conj in canon._dnf(cfg.ctest(t.id), True) for a, _ in conj)
     key = fi.qual + "::non-success=>raise"
-    if neq not in tests and eq not in tests:
+    if not compared:
         run.violated("R2", key, "the top-level status code is no longer compared "
                      "with samlp.STATUS_SUCCESS", fi.loc())
     else:
